@@ -40,8 +40,32 @@ class _Continue(Exception):
     pass
 
 
+class _NeedAtom(Exception):
+    def __init__(self, key: str) -> None:
+        self.key = key
+
+
 class _Break(Exception):
     pass
+
+
+def _clone(node: Any, subst: dict[str, ast.expr]) -> Any:
+    """Structural copy over _fields only (the loader's .parent back-links are not followed), with names substituted."""
+    if isinstance(node, ast.Name) and node.id in subst:
+        return _clone(subst[node.id], {})
+    if isinstance(node, ast.AST):
+        new = type(node)()
+        for fld in node._fields:
+            v = getattr(node, fld, None)
+            if isinstance(v, list):
+                setattr(new, fld, [_clone(x, subst) for x in v])
+            else:
+                setattr(new, fld, _clone(v, subst))
+        for a in ("lineno", "col_offset", "end_lineno", "end_col_offset"):
+            if hasattr(node, a):
+                setattr(new, a, getattr(node, a))
+        return new
+    return node
 
 
 class Table:
@@ -68,6 +92,9 @@ class PredEval:
         self.max_rows = max_rows
         self.subjects: dict[str, list[Any]] = {}
         self.atoms: list[str] = []
+        self._const_cache: dict[int, Any] = {}
+        self._key_cache: dict[tuple, str] = {}
+        self._keep: list[Any] = []  # keeps synthesised nodes alive so that id()-keyed caches stay valid
         self._collect()
         # values the calling rule wants told apart even if the function no longer mentions them (else they hide in OTHER)
         for k, vals in (domains or {}).items():
@@ -79,6 +106,16 @@ class PredEval:
     # -- constants ----------------------------------------------------------------------------
 
     def _const(self, e: ast.expr) -> Any:
+        k = id(e)
+        c = self._const_cache.get(k, self)
+        if c is not self:
+            return c
+        c = self._const_raw(e)
+        self._const_cache[k] = c
+        self._keep.append(e)
+        return c
+
+    def _const_raw(self, e: ast.expr) -> Any:
         if isinstance(e, ast.Constant):
             return e.value
         if isinstance(e, (ast.Tuple, ast.List, ast.Set)):
@@ -150,37 +187,40 @@ class PredEval:
         fn_params = {a.arg for a in self.f.node.args.posonlyargs + self.f.node.args.args + self.f.node.args.kwonlyargs}
         self._param_subjects = {k for k in self.subjects if k in fn_params and k not in self.params}
         subj_keys = [k for k in self.subjects if (k not in self.locals_ or k in self._param_subjects) and k not in self.params and self.subject_ok(k)]
-        # first pass to discover opaque atoms: evaluate with a recording env
-        self._atoms_seen: list[str] = []
         doms = [self.subjects[k] + [OTHER] for k in subj_keys]
-        rows: list[tuple[dict[str, Any], Any]] = []
-        # atoms are discovered lazily: iterate to a fixed point on the atom list
+        # opaque atoms are discovered on demand: a run that needs an unassigned atom is split in two (decision-tree search), so
+        # only the reachable part of the truth table is evaluated; don't-care atoms are filled in afterwards without re-running
+        leaves: list[tuple[dict[str, Any], dict[str, bool], Any, tuple]] = []
         atoms: list[str] = []
-        for _round in range(6):
-            rows = []
-            new_atoms: list[str] = []
-            n_rows = 1
-            for d in doms:
-                n_rows *= len(d)
-            n_rows *= 2 ** len(atoms)
-            if n_rows > self.max_rows:
-                raise Unsupported(f"decision table too large ({n_rows} rows)")
-            for combo in itertools.product(*doms):
-                for bits in itertools.product((False, True), repeat=len(atoms)):
-                    env = dict(zip(subj_keys, combo))
-                    aenv = dict(zip(atoms, bits))
-                    self._missing: list[str] = []
-                    res = self._run(env, aenv)
-                    for m in self._missing:
-                        if m not in atoms and m not in new_atoms:
-                            new_atoms.append(m)
-                    rows.append(({**env, **aenv, "__effects__": tuple(self._effects)}, res))
-            if not new_atoms:
-                break
-            atoms += new_atoms
-        else:
-            raise Unsupported("opaque atoms did not converge")
+        n_runs = 0
+        for combo in itertools.product(*doms):
+            env = dict(zip(subj_keys, combo))
+            stack: list[dict[str, bool]] = [{}]
+            while stack:
+                aenv = stack.pop()
+                n_runs += 1
+                if n_runs > self.max_rows:
+                    raise Unsupported(f"decision tree too large (> {self.max_rows} runs)")
+                try:
+                    res = self._run(dict(env), aenv)
+                except _NeedAtom as na:
+                    if na.key not in atoms:
+                        atoms.append(na.key)
+                    stack.append({**aenv, na.key: True})
+                    stack.append({**aenv, na.key: False})
+                    continue
+                leaves.append((env, aenv, res, tuple(self._effects)))
         self.atoms = atoms
+        self.leaves = leaves
+        total = len(leaves)
+        rows: list[tuple[dict[str, Any], Any]] = []
+        est = sum(2 ** (len(atoms) - len(a)) for _e, a, _r, _x in leaves)
+        if est > self.max_rows:
+            raise Unsupported(f"decision table too large ({est} rows)")
+        for env, aenv, res, eff in leaves:
+            free = [k for k in atoms if k not in aenv]
+            for bits in itertools.product((False, True), repeat=len(free)):
+                rows.append(({**env, **aenv, **dict(zip(free, bits)), "__effects__": eff}, res))
         return Table({k: self.subjects[k] for k in subj_keys}, atoms, rows)
 
     def _run(self, env: dict[str, Any], aenv: dict[str, bool]) -> Any:
@@ -230,6 +270,10 @@ class PredEval:
                             self._env.pop(k, None)
             elif isinstance(st, ast.For):
                 it = st.iter
+                # dict.fromkeys((a, b)) / set((a, b)) / tuple((a, b)): the elements, possibly de-duplicated (the body is a
+                # function of the element alone, so evaluating a duplicate twice does not change a decision)
+                if isinstance(it, ast.Call) and norm(it.func) in ("dict.fromkeys", "set", "tuple", "list", "sorted", "frozenset") and len(it.args) == 1:
+                    it = it.args[0]
                 if not isinstance(it, (ast.Tuple, ast.List)):
                     raise Unsupported(f"loop over {norm(it)[:40]}")
                 for el in it.elts:
@@ -299,6 +343,18 @@ class PredEval:
 
     def _atom_key(self, e: ast.expr) -> str:
         """Normalised text, with opaque locals replaced by their binding site and re-assigned attributes by their version."""
+        subst = {k: v[1] for k, v in self._loc.items() if isinstance(v, tuple) and len(v) == 2 and v[0] == "expr"}
+        ck = (id(e), tuple(sorted((k, id(v)) for k, v in subst.items())), tuple(sorted(self._ver.items())), tuple(sorted((k, v[1]) for k, v in self._loc.items() if isinstance(v, tuple) and len(v) == 2 and v[0] == "opaque")))
+        if ck in self._key_cache:
+            return self._key_cache[ck]
+        self._keep.append(e)
+        key = self._atom_key_raw(e, subst)
+        self._key_cache[ck] = key
+        return key
+
+    def _atom_key_raw(self, e: ast.expr, subst: dict) -> str:
+        if subst and any(isinstance(n, ast.Name) and n.id in subst for n in ast.walk(e)):
+            e = _clone(e, subst)
         key = norm(e)
         tags = []
         for n in ast.walk(e):
@@ -314,9 +370,7 @@ class PredEval:
         key = self._atom_key(e)
         if key in self._aenv:
             return self._aenv[key]
-        if key not in self._missing:
-            self._missing.append(key)
-        return False
+        raise _NeedAtom(key)
 
     def _truth(self, e: ast.expr) -> bool:
         if isinstance(e, ast.BoolOp):
